@@ -54,7 +54,9 @@ CHECKS = {
     ),
     'C02': dict(
         props=['C02'], opts='props=1',
-        quick=[mc(2, MAINSEEDS, DEL + GC + MODE, DEL)],
+        quick=[mc(2, MAINSEEDS, DEL + GC + MODE, DEL),
+               # a cell deleted, replaced on the same halffaces, collected: later deletions must still reach the new cell
+               mc(4, [1, 5], ['delete_cell', 'add_cell_closed', 'collect_garbage'], ['delete_face', 'delete_edge', 'delete_vertex'], Modes='ModesDeferred', BUSets='BUTwo')],
         thorough=[mc(3, SMALL, DEL + GC + MODE, DEL),
                   mc(3, [3, 9, 10], DEL + ['add_cell_closed'], DEL, Modes='ModesTwo', BUSets='BUTwo')],
         sim=dict(ops=DEL + GC + ADDS + BUT + MODE + ['clear']),
